@@ -119,6 +119,26 @@ def encap(L, sid, pkts):
             packed.append(Str("err:" + _ek(e)))
     return [frames, packed]
 
+def nollp(L, sid, pkts):
+    """NoLLPOverflow observed on the REAL generator: every `add_payload(buffer, is_llp=True)` call that
+    `datapkts_to_ptfr` makes finds room for len(buffer) + 1 bytes (the PTDP and its continuation byte) in
+    the frame under construction; False as well when the generator fails (model: noLLPOverflowFrom)"""
+    ok = [True]
+    orig = ch7.PTFR.add_payload
+    def spy(self, buffer, is_llp=False):
+        if is_llp and len(buffer) + 1 + len(self._payload) > self.length:
+            ok[0] = False
+        return orig(self, buffer, is_llp)
+    ch7.PTFR.add_payload = spy
+    try:
+        try:
+            frames_of(L, sid, pkts)
+        except Exception:
+            ok[0] = False
+    finally:
+        ch7.PTFR.add_payload = orig
+    return ok[0]
+
 def consumer(L, frames):
     """the documented consumer loop: first frame get_aligned_payload(True, b""), then
     get_aligned_payload(False, leftover) with leftover = second component of the last (None, buf, e)."""
@@ -170,4 +190,5 @@ def reassemble(ptdp_list):
 FUNCS["ch7.ptdps"] = ptdps
 FUNCS["ch7.encap"] = encap
 FUNCS["ch7.decap"] = decap
+FUNCS["ch7.nollp"] = nollp
 FUNCS["ch7.reassemble"] = reassemble
